@@ -270,8 +270,16 @@ class SqlalchemyRender:
                 order_by = []
                 for f in t.order_by:
                     col0 = self.to_expression(f.field)
-                    if f.direction == 'DESC':
+                    direction = str(f.direction).upper()
+                    if direction == 'DESC':
                         col0 = col0.desc()
+                    elif direction == 'ASC':
+                        col0 = col0.asc()
+                    nulls = str(f.nulls).upper()
+                    if nulls == 'NULLS FIRST':
+                        col0 = sa.nullsfirst(col0)
+                    elif nulls == 'NULLS LAST':
+                        col0 = sa.nullslast(col0)
                     order_by.append(col0)
 
             col = sa.over(
